@@ -182,6 +182,30 @@ theorem cq_corrections_commute (κ ψ : ℝ) :
     (e κ • kron2 (G.rz_ κ) (G.rz_ κ)) * exchU ψ = exchU ψ * (e κ • kron2 (G.rz_ κ) (G.rz_ κ)) :=
   corr_exch_commute κ ψ
 
+/-- **the regime tests of `CavityQEDModel._compute_params`**: the "not dispersive" warning is issued iff `g/(w0 − wq) > 1/20`
+for some qubit, the rotating-wave warning iff `(w0 − wq)/(w0 + wq) > 1/20`; the compiler and the model compute the same
+`wq = √(eps² + delta²)` and `Delta = wq − w0`; at the default parameters (`wq = 9.5`, `w0 = 10`, `g = 0.01`) neither warns. -/
+theorem cq_regime_tests (g w0 wq e d : ℝ) :
+    (CQ.warn0 g w0 wq = true ↔ 1 / 20 < g / (w0 - wq)) ∧ (CQ.warn1 g w0 wq = true ↔ 1 / 20 < (w0 - wq) / (w0 + wq)) ∧
+    CQ.compWq e d = CQ.modelWq e d ∧ CQ.compDelta (CQ.compWq e d) w0 = CQ.modelDelta (CQ.modelWq e d) w0 ∧
+    CQ.compWq e d = Real.sqrt (e * e + d * d) ∧ CQ.compDelta wq w0 = wq - w0 ∧
+    CQ.warn0 (1 / 100 : ℝ) 10 (19 / 2) = false ∧ CQ.warn1 (1 / 100 : ℝ) 10 (19 / 2) = false := by
+  have h0 : ∀ a b c : ℝ, (CQ.warn0 a b c = true ↔ 1 / 20 < a / (b - c)) := by
+    intro a b c
+    show DArith.lt (DArith.ofFrac 1 20 : ℝ) (DArith.div a (DArith.sub b c)) = true ↔ _
+    rw [lt_iff]
+    show ((1 : ℤ) : ℝ) / ((20 : ℕ) : ℝ) < a / (b - c) ↔ _
+    push_cast; rfl
+  have h1 : ∀ a b c : ℝ, (CQ.warn1 a b c = true ↔ 1 / 20 < (b - c) / (b + c)) := by
+    intro a b c
+    show DArith.lt (DArith.ofFrac 1 20 : ℝ) (DArith.div (DArith.sub b c) (DArith.add b c)) = true ↔ _
+    rw [lt_iff]
+    show ((1 : ℤ) : ℝ) / ((20 : ℕ) : ℝ) < (b - c) / (b + c) ↔ _
+    push_cast; rfl
+  refine ⟨h0 _ _ _, h1 _ _ _, rfl, rfl, rfl, rfl, ?_, ?_⟩
+  · rw [Bool.eq_false_iff]; intro h; rw [h0] at h; norm_num at h
+  · rw [Bool.eq_false_iff]; intro h; rw [h1] at h; norm_num at h
+
 /-- **global-phase bookkeeping**: after `compile`, whatever the compiler carried before, the reported phase is the
 sum over the gate list of: the angle of a GLOBALPHASE gate, the correction angle `κ` of an exchange gate, 0 otherwise;
 `load_circuit` hands exactly this value to the processor. -/
@@ -228,7 +252,8 @@ theorem hann_envelope :
 
 /-- **RX(θ) / RY(θ) on qubit `t` of the superconducting processor, every θ, every device** (default `args`: Hann
 window, DRAG).  The main quadrature is on `sx<t>` (`sy<t>`), sampled from the envelope scaled with the strength
-`omega_single[t]` of THAT qubit and the area `θ/(2π)`, corrected by `dragX` with the anharmonicity `alpha[t]`; the
+`omega_single[t]` of THAT qubit (lowered for small angles when the source has the amplitude floor, fixes/C18-3.patch: the
+pulse is then never shorter than that of a quarter turn) and the area `θ/(2π)`, corrected by `dragX` with the anharmonicity `alpha[t]`; the
 Z quadrature on `sz<t>`; the derivative quadrature on `sy<t>` (for RX) resp. with the opposite sign on `sx<t>` (for
 RY).  With the control `π·X` (`π·Y`) on the qubit subspace, the envelope area gives exactly the gate.  (The DRAG
 corrections themselves — their effect on leakage and the change of the area by `−c³/(4α²)` — belong to the measured
@@ -237,26 +262,43 @@ theorem scq_rot_calibrated (H : SCQ.HW ℝ) (n t : Nat) (θ Ω α w : ℝ) (hn :
     (hΩ : H.raw.omega_single[t]? = some Ω) (hα : H.raw.alpha[t]? = some α) (hw : H.raw.wq[t]? = some w) :
     SCQ.compileGate Real.pi H true n ⟨"RX", [t], [], θ⟩ = .ok ([scqDragInstr ⟨"RX", [t], [], θ⟩ "sx" "sy" false n t Ω α], none) ∧
     SCQ.compileGate Real.pi H true n ⟨"RY", [t], [], θ⟩ = .ok ([scqDragInstr ⟨"RY", [t], [], θ⟩ "sy" "sx" true n t Ω α], none) ∧
-    (∫ s in (0 : ℝ)..(SCQ.pulseDur (SCQ.windowTmax : ℝ) Ω (SCQ.rotArea Real.pi θ)), envelope Ω (SCQ.rotArea Real.pi θ) s)
-      = θ / (2 * Real.pi) ∧
+    (∫ s in (0 : ℝ)..(SCQ.pulseDur (SCQ.windowTmax : ℝ) (SCQ.rotMax Ω (SCQ.rotArea Real.pi θ)) (SCQ.rotArea Real.pi θ)),
+        envelope (SCQ.rotMax Ω (SCQ.rotArea Real.pi θ)) (SCQ.rotArea Real.pi θ) s) = θ / (2 * Real.pi) ∧
+    (SCQ.rotFloor = true → θ ≠ 0 →
+      SCQ.pulseDur (SCQ.windowTmax : ℝ) (SCQ.rotMax Ω (SCQ.rotArea Real.pi θ)) (SCQ.rotArea Real.pi θ)
+        = 2 * (max |θ / (2 * Real.pi)| (1 / 4) / |Ω|)) ∧
     prop (((SCQ.ctlSX_coef Real.pi * (θ / (2 * Real.pi)) : ℝ) : ℂ) • G.x_gate_) = G.rx_ θ ∧
     prop (((SCQ.ctlSY_coef Real.pi * (θ / (2 * Real.pi)) : ℝ) : ℂ) • G.y_gate_) = G.ry_ θ := by
   have hph : Real.pi * (θ / (2 * Real.pi)) = θ / 2 := by
     have := Real.pi_ne_zero; field_simp
-  refine ⟨?_, ?_, ?_, ?_, ?_⟩
+  refine ⟨?_, ?_, ?_, ?_, ?_, ?_⟩
   · unfold SCQ.compileGate
     simp only [scq_lookup_RX]
     rw [scq_rotation_drag_sx H _ n t [] Ω α w hn rfl hΩ hα hw]
   · unfold SCQ.compileGate
     simp only [scq_lookup_RY]
     rw [scq_rotation_drag_sy H _ n t [] Ω α w hn rfl hΩ hα hw]
-  · rw [envelope_area Ω _ hΩ0, scq_rotArea_eq]
+  · rw [envelope_area _ _ (scq_rotMax_ne_zero Ω _ hΩ0), scq_rotArea_eq]
+  · intro hf hθ
+    have ha : SCQ.rotArea Real.pi θ ≠ 0 := by
+      rw [scq_rotArea_eq]; have := Real.pi_ne_zero; positivity
+    rw [scq_floor_duration Ω _ _ hΩ0 hf ha, scq_rotArea_eq, scq_windowTmax_eq]
   · rw [scq_ctlSX_coef_eq, hph, prop_x]
   · rw [scq_ctlSY_coef_eq, hph, prop_y]
 
 example : ∃ (H : SCQ.HW ℝ) (Ω α w : ℝ), Ω ≠ 0 ∧ H.raw.omega_single[1]? = some Ω ∧ H.raw.alpha[1]? = some α ∧ H.raw.wq[1]? = some w :=
   ⟨SCQ.computeParams ⟨[5, 6], [7], [-3, -3], [1, 1], [2, 2], [2, 2]⟩ 2, 2, -3, 6, by norm_num, by simp [SCQ.computeParams],
     by simp [SCQ.computeParams], by simp [SCQ.computeParams]⟩
+
+/-- **the DRAG quadratures** as the compiler computes them from a sample `c` of the envelope, the numerical gradient `g`
+of the envelope and the anharmonicity `α ≠ 0` of the addressed qubit: main quadrature `c − c³/(4α²)`, Z quadrature
+`−c²/(2α)` (the source's `−c²/α + (√2)²c²/(4α)`), derivative quadrature `−(g/2π)/α`. -/
+theorem scq_drag_quadratures (c g α : ℝ) (hα : α ≠ 0) :
+    SCQ.dragX c α = c - c * c * c / (4 * (α * α)) ∧ SCQ.dragZ c α = -(c * c) / (2 * α) ∧
+    SCQ.dragY (SCQ.dragDt Real.pi g) α = -(g / (2 * Real.pi)) / α :=
+  ⟨scq_dragX_eq c α, scq_dragZ_eq c α hα, scq_dragY_eq g α⟩
+
+example : (-3 / 10 : ℝ) ≠ 0 := by norm_num
 
 /-- **which ZX strength belongs to which (control, target)**, every device size `N` and neighbours `i, i+1 < N`:
 `rzx_compiler` reads for (control `i`, target `i+1`) the cross-resonance strength with the drive amplitude and the
